@@ -4,7 +4,7 @@ from . import common as C
 TRUSTED = [
     "Lean 4.33 kernel; axioms: propext, Quot.sound at most (see coverage.axioms_used)",
     "hand-written Lean model LlirModel/Gep.lean: gep.ResultType, the three getIndex classifiers (instruction constructor, constant expression, parser) and "
-    "LLVMSpec.gepType transcribed from the LangRef (trusted transcription)",
+    "LLVMSpec.gepType transcribed from the LangRef (trusted transcription; VALIDATED on every run against llvm-as 14, see coverage.llvm_reference)",
     "identified structs are looked up in an environment; the harness fixes every %n = type { i32, %n* }",
     "Go harness ops_typing.go (three pipelines + gep.ResultType through the verif hook)",
 ]
